@@ -5,7 +5,8 @@
 //   vals    the value each readable stamp carries (operator size_t), as two
 //           limbs base 2^30 ([-1,0] for an empty or moved-from cell, which is
 //           not read)
-//   ranks   the dense rank of each readable cell's value among them
+//   ranks   the dense rank of each readable cell's value among them, computed with
+//           comparisons written directly on the TimeStamp objects (a < b, a == b)
 //           (0 = empty, -1 = moved-from: the driver's own books)
 //   newmax  whether the cell written by this step now carries a value above
 //           every value read earlier in this history
@@ -81,8 +82,16 @@ struct CellsWorld
         ranks.push(Json(holds(s) ? -1 : 0));
       } else {
         vals.push(limbs(v[s]));
+        // rank through comparisons written on the TimeStamp objects themselves (a < b, a == b: what user code writes;
+        // today they go through operator size_t, tomorrow perhaps through operators of TimeStamp's own)
         long long r = 1;
-        for (size_t d : distinct) if (d < v[s]) ++r;
+        for (int u = 1; u <= nc; ++u) {
+          if (!readable(u) || !(*cell[u] < *cell[s])) continue;
+          bool seen = false;   // count each distinct smaller value once
+          for (int u2 = 1; u2 < u; ++u2)
+            if (readable(u2) && *cell[u2] == *cell[u]) seen = true;
+          if (!seen) ++r;
+        }
         ranks.push(Json(r));
       }
     }
